@@ -92,8 +92,18 @@ func genStdSession(rs uint64, prop string, o stdOpts) *Session {
 	}
 	nops := between(r, 1, o.MaxOps)
 	qn := 0
+	// a recurring shape worth hitting often: command, configuration, command (privilege level
+	// cached by the first, changed by the second, needed again by the third)
+	var template []string
+	if sc.Driver == "network" && len(o.ForceKinds) == 0 && r.IntN(3) == 0 {
+		template = []string{"netsend", pick(r, "netconfigs", "acquire"), "netsend", "netsend"}
+		nops = len(template)
+	}
 	for i := 0; i < nops; i++ {
 		op := OpSpec{Kind: pick(r, kinds...)}
+		if template != nil {
+			op.Kind = template[i]
+		}
 		back := cmdMode.Name
 		switch op.Kind {
 		case "send", "netsend":
@@ -101,6 +111,11 @@ func genStdSession(rs uint64, prop string, o stdOpts) *Session {
 			op.Cmd, op.Lines = c, [][]string{l}
 			op.Exact = r.IntN(4) == 0
 			op.NoStrip = r.IntN(5) == 0
+			if r.IntN(4) == 0 {
+				// interim prompt patterns that never occur in this device's output
+				op.Interim = []string{`(?m)^\.\.\.\s?$`, `(?m)^interim-never-seen>$`}
+			}
+			op.OptSeed = r.Uint64()
 		case "sendmulti", "netsendmulti":
 			for j := between(r, 2, 3); j > 0; j-- {
 				c, l := addSend()
